@@ -278,6 +278,19 @@ theorem getitem_deterministic (steps : List (Step R)) (ds : DS R) (W : WFds ds) 
   | none => rfl
   | some e => simp only [Option.map_some]; rw [hr e (List.mem_of_getElem? hc)]
 
+/-- **Any read of any built dataset returns the specified sample.**  The two hypotheses are the
+facts about `build` that are *checked by the driver on every explored case* rather than proved
+(`spec` flag): the built state is well-formed and caches exactly `specCache`. -/
+theorem getitem_eq_spec (cfg : Cfg R) (cast : Nat → R) (fs : List (Frame R)) (ds : DS R)
+    (W : WFds ds)
+    (hb : ds.cache.map (fun e => (ds.heap.readD e.1, e.2)) = specCache cfg cast fs)
+    (js : List Nat) (i : Nat) :
+    (getItem (cfg.steps cast) (runGets (cfg.steps cast) ds js) i).2 = specSample cfg cast fs i := by
+  rw [getitem_deterministic _ ds W js i, getItem_value _ ds W i]
+  unfold specSample
+  rw [← hb, List.getElem?_map]
+  cases ds.cache[i]? <;> rfl
+
 /-- the invariant is satisfiable by a non-trivial state: one cached centered-instance sample -/
 example : WFds (⟨⟨[[(some (1 : Int), some 2)], [(some 3, some 4)]],
     [[(Key.instance, ⟨0, [0]⟩), (Key.centroid, ⟨1, [0]⟩)]]⟩, [(0, ⟨1, 0, 0, 8, 8⟩)]⟩ : DS Int) := by
